@@ -13,6 +13,12 @@ Decided:
          de-duplicates with ``not in`` keeping the first occurrence; set_error_handler wraps before the
          middleware loop (innermost); _safe_wrap_wsgi returns the inner callable untouched when there is no
          wrapper and validates the wrapped callable's first two parameter names;
+         The error handler *in effect* is the one wrapped (check_handler_in_effect): every path through set_error_handler
+         that installs a handler -- the one passed in, the default, the debug default (types a subclass may override) --
+         applies a wrapping store whose source is the object stored as self.error_handler.
+         Nobody un-hands them (c13_body.py): a function that stores a new body into a response it did not create keeps the
+         old iterable's close() reachable (the response's own close-keeping API as read from the pinned werkzeug,
+         call_on_close, or ClosingIterator).
   R13.e  the entry point only grows: ``self._dispatch_wsgi`` is written only by methods of the application class, only
          with a wrapping of its current value, and is never deleted / replaced through any spelling (``del``,
          ``setattr`` / ``delattr``, ``__dict__`` / ``vars()`` item stores, ``pop``, ``update``, ``clear`` ...) anywhere
@@ -1152,12 +1158,90 @@ def check_wrap_order(rep, app):
               'the wrapping loop does not follow the binding of routes', ai.mod, ai.node)
     sh = app.func('Application.set_error_handler')
     w = [st for st in stmts_of(sh.node) if slot_store(st) is not None]
-    ok = len(w) == 1 and wrapping_store(app, sh, w[0])
-    if ok:
-        v, _ = through_temps(sh, slot_store(w[0]))
-        ok = isinstance(v, ast.Call) and call_name(v) == '_safe_wrap_wsgi'
+    # one wrapping store per path (the same statement repeated on exclusive branches is one wrapping; two in sequence are two)
+    scfg = cfg_of(sh)
+    ok = bool(w) and all(wrapping_store(app, sh, x) for x in w) and \
+        not any(set(scfg.nodes_of(y)) & scfg.reach(scfg.nodes_of(x), include_src=False) for x in w for y in w)
+    for x in (w if ok else []):
+        v, _ = through_temps(sh, slot_store(x))
+        ok = ok and isinstance(v, ast.Call) and call_name(v) == '_safe_wrap_wsgi'
     rep.check('R13.b', fkey(sh), ok, 'set_error_handler wraps the current stack with the handler\'s wsgi_wrapper' if ok else
               'set_error_handler does not wrap self._dispatch_wsgi', sh.mod, sh.node)
+
+
+def _same_binding(fi, a, a_st, b, b_st):
+    """Do expression ``a`` at statement ``a_st`` and expression ``b`` at statement ``b_st`` denote the same object?  True /
+    False when the text decides it, None otherwise.  Decided: the same local name with no re-binding of it on a path
+    between the two statements; two names for one single-assignment binding; two different names that are not."""
+    cfg = cfg_of(fi)
+    an, bn = set(cfg.nodes_of(a_st)), set(cfg.nodes_of(b_st))
+    if not an or not bn:
+        return None
+    if isinstance(a, ast.Name) and isinstance(b, ast.Name) and a.id == b.id:
+        mid = (cfg.between(an, bn) | cfg.between(bn, an)) - an - bn
+        for st, _v, _i in assigned_value(fi.node, a.id):
+            if set(cfg.nodes_of(st)) & mid or (isinstance(st, ast.ExceptHandler) and set(cfg.handler_nodes(st)) & mid):
+                return False
+        return True
+    ra, rb = through_temps(fi, a)[0], through_temps(fi, b)[0]
+    if ra is rb:
+        return True
+    if isinstance(ra, ast.Name) and isinstance(rb, ast.Name):
+        return _same_binding(fi, ra, a_st, rb, b_st) if ra.id == rb.id else False
+    return None
+
+
+def check_handler_in_effect(rep, app, slot='_dispatch_wsgi', attr='error_handler'):
+    """R13.b (handler in effect) -- whichever way ``set_error_handler`` arrives at the handler it installs (the one passed in,
+    the default, the debug default: the two default *types* are class attributes a subclass is documented to override, so
+    nothing is known about whether they carry a ``wsgi_wrapper``), the WSGI wrapper applied is that handler's:
+
+      * every normal path through the method that stores ``self.error_handler`` also passes a wrapping store of the entry
+        point (no test -- of the argument, of ``self.debug``, of a flag -- lets a path install a handler and skip it);
+      * the ``source`` argument of each wrapping call denotes the object stored as ``self.error_handler`` on the same path
+        (the same local, not re-bound in between; or ``self.error_handler`` itself, read after the store)."""
+    sh = app.func('Application.set_error_handler')
+    cfg = cfg_of(sh)
+    ws = wrap_stores(sh)
+    hs = [(s, slot_store(s, attr)) for s in stmts_of(sh.node) if slot_store(s, attr) is not None]
+    if not hs:
+        raise AnalysisError('set_error_handler: no store into self.%s found' % attr)
+    if not ws or any(c is None or wrap_args(app, c) is None for _s, c, _t in ws):
+        return      # judged by the 'wraps the current stack' obligation
+    w_nodes = set(cfg.nodes_of_all([s for s, _c, _t in ws]))
+    skipping = [h for h, _v in hs if cfg.nodes_of(h) and not cfg.must_pass(w_nodes, cfg.entry, cfg.nodes_of(h)) and
+                not cfg.must_pass(w_nodes, cfg.nodes_of(h), cfg.exit)]
+    ok = not skipping
+    rep.check('R13.b', fkey(sh, 'handler in effect wrapped on every path'), ok,
+              'every path that installs an error handler applies a wsgi_wrapper to the entry point' if ok else
+              'a path through set_error_handler installs an error handler without applying its wsgi_wrapper (a handler type '
+              'chosen by default may have one as well)', sh.mod, skipping[0] if skipping else sh.node)
+    bad = unknown = None
+    for s, c, _t in ws:
+        src = wrap_args(app, c)[1]
+        sn = set(cfg.nodes_of(s))
+        for h, hv in hs:
+            hn = set(cfg.nodes_of(h))
+            if not sn or not hn or not ((cfg.reach(sn) & hn) or (cfg.reach(hn) & sn)):
+                continue
+            if norm(src) == 'self.' + attr:
+                # read back from the attribute: only after the store, with no other store in between
+                others = set(cfg.nodes_of_all([x for x, _ in hs if x is not h]))
+                same = cfg.must_pass(hn, cfg.entry, sn) and not ((cfg.between(hn, sn) - hn - sn) & others)
+                if not (cfg.reach(hn) & sn):
+                    same = False
+            else:
+                same = _same_binding(sh, src, s, hv, h)
+            if same is False and bad is None:
+                bad = s
+            elif same is None and unknown is None:
+                unknown = (src, hv)
+    if bad is None and unknown is not None:
+        raise AnalysisError('set_error_handler: cannot relate the wrapped source %s to the stored handler %s' % (short(unknown[0]), short(unknown[1])))
+    ok = bad is None
+    rep.check('R13.b', fkey(sh, 'wrapped source is the handler in effect'), ok,
+              'the wrapper applied is that of the object stored as self.%s' % attr if ok else
+              'the wsgi_wrapper applied in set_error_handler is not that of the handler it installs', sh.mod, bad or sh.node)
 
 
 def _comp_of(fi, expr):
@@ -1654,6 +1738,7 @@ def run(rep):
     rep.rule('R13.g', 'header values of unknown type reach werkzeug only through its normalising entry points (never as a list clastic assembled)')
     _group(rep, check_header_handover, rep)
     _group(rep, check_wrap_order, rep, app)
+    _group(rep, check_handler_in_effect, rep, app)
     _group(rep, check_collect_middlewares, rep, app)
     rep.rule('R13.d', 'the wrapper sources contain the application-level middlewares whether or not a route is bound')
     from .c13_wrappers import check_app_level_wrappers
@@ -1669,3 +1754,5 @@ def run(rep):
     if not rep.gaps:
         rep.floor('R13.b', 7)
     _group(rep, check_file_handover, rep, st)
+    from .c13_body import check_body_replacement
+    _group(rep, check_body_replacement, rep, 'R13.c')
